@@ -43,6 +43,7 @@ REFUSALS = {
 EXACT = {
     "nevra, nevra_dict = self._check_nevra(nevra)": "nevra",
     "if sigkey is not None:\n    sigkey = sigkey.lower()": "sigkeyLower",
+    "if sigkey is not None:\n    if not isinstance(sigkey, six.string_types):\n        raise TypeError\n    sigkey = sigkey.lower()": "sigkeyTyped",
     "if srpm_nevra:\n    srpm_nevra, _ = self._check_nevra(srpm_nevra)\nelse:\n    srpm_nevra = nevra": "srpmCanon",
     "uid, uid_dict = self._check_uid(uid)": "uid",
     "name = uid_dict['module_name']": "assign", "stream = uid_dict['stream']": "assign",
